@@ -27,7 +27,9 @@ def _case(draw, worlds):
             'inv_dtype': draw(st.sampled_from(['float32', 'float32', 'float64'])),
             'factor_dtype': draw(st.sampled_from([None, None, 'float64', 'bfloat16'])),
             'steps': draw(st.integers(1, 5)), 'schedule': draw(st.lists(st.integers(0, 63), max_size=200)),
-            'flip': draw(st.booleans())}
+            'flip': draw(st.booleans()),
+            # optionally a checkpoint is saved and loaded into a fresh preconditioner before train step `load_at` (>= 1)
+            'load_at': draw(st.sampled_from([None, None, 1, 1, 2, 3])), 'load_compute_inverses': draw(st.booleans())}
     case.update(draw(placement(W, method, prediv)))
     if method == 'inverse' and case['factor_dtype'] == 'bfloat16':
         case['factor_dtype'] = 'float64'      # bfloat16 factors + inverse method can be exactly singular (numerical domain of C01)
@@ -45,7 +47,9 @@ class C13(Prop):
             'walk; (c) per step and rank the multiset of K-FAC collectives (kind, group, numel, root) equals the expected one: factors '
             'all-reduced over the world exactly once per factor-update step (fused all-reduces must add up and respect the cap), n(n+1)/2 '
             'elements in symmetric mode, inverse broadcasts only on refresh steps inside the worker column from the inverse worker (none for '
-            'k=1), one gradient broadcast per layer inside the receiver row from that row\'s worker (none for k=W), nothing for W=1. '
+            'k=1), one gradient broadcast per layer inside the receiver row from that row\'s worker (none for k=W), nothing for W=1; '
+            '(d) optionally a checkpoint is loaded into a fresh preconditioner before step 1-3: the load communicates exactly the inverse '
+            'broadcasts of a refresh step (none under MEM-OPT or with compute_inverses=False) and (a)-(c) keep holding afterwards. '
             'Non-trivial: W >= 2 and (a non-refresh step occurred or symmetry-aware is on).')
     assumptions = ['second-order tensors are found by reading the attributes a_inv, g_inv, qa, qg, da, dg, dgda of the layer objects',
                    'gradient averaging done by the harness (phase "ddp") is excluded from the trace comparison',
@@ -53,7 +57,7 @@ class C13(Prop):
     examples = {'quick': 150, 'thorough': 500}
     shards = {'quick': 4, 'thorough': 16}
     shrink_budget_s = {'quick': 30.0, 'thorough': 180.0}
-    required_labels = {'quick': ['nontrivial=True', 'strategy=HYBRID', 'strategy=MEM', 'strategy=COMM', 'symmetry=True'],
+    required_labels = {'quick': ['nontrivial=True', 'strategy=HYBRID', 'strategy=MEM', 'strategy=COMM', 'symmetry=True', 'has_load=True'],
                        'thorough': ['nontrivial=True', 'strategy=HYBRID', 'strategy=MEM', 'strategy=COMM', 'symmetry=True', 'bucketed=True']}
 
     def strategy(self, tier):
@@ -69,11 +73,18 @@ class C13(Prop):
         strat = 'COMM' if k == W else 'MEM' if k == 1 else 'HYBRID'
         fus, ius = case['hp']['factor_update_steps'], case['hp']['inv_update_steps']
         program = []
-        for t in range(case['steps']):
+        load_at = case.get('load_at')
+        nsteps = case['steps'] if load_at is None else max(case['steps'], load_at + 1)
+        load_ci = True
+        for t in range(nsteps):
+            if load_at is not None and t == load_at:
+                # without inverses only when the next step recomputes them anyway (documented requirement)
+                load_ci = True if t % ius != 0 else bool(case.get('load_compute_inverses', True))
+                program.append({'op': 'load', 'compute_inverses': load_ci})
             program.append({'op': 'train', 'seed': t})
             program.append({'op': 'memory_usage', 'ranks': None})
         labels = {'W': W, 'strategy': strat, 'method': case['method'], 'prediv': case['prediv'], 'symmetry': case['symmetry'],
-                  'bucketed': case['cap'] > 0, 'in_hook': case['in_hook'], 'steps': case['steps']}
+                  'bucketed': case['cap'] > 0, 'in_hook': case['in_hook'], 'steps': case['steps'], 'has_load': load_at is not None}
         res = kaisa.run_sim(case, program, case['schedule'], case['flip'], observe=('assignment', 'held'))
         if res.timed_out:
             raise RuntimeError('simulation timed out (harness)')
@@ -197,6 +208,40 @@ class C13(Prop):
                     miss = exp_bc - got_bc
                     return violation(f'step {t} (refresh={is_refresh}): rank {r} broadcasts (group, numel, root): unexpected {dict(extra)}, missing {dict(miss)} '
                                      f'(W={W}, k={k}, {strat}, method={case["method"]}, prediv={case["prediv"]}, symmetric={sym})', 'broadcast-placement', labels=labels)
+        # (d) collectives of a checkpoint load: second-order data recomputed from the restored factors travels exactly like on a refresh
+        #     step (inside the gradient-worker column, from the inverse worker; never under MEM-OPT); nothing else is communicated
+        if load_at is not None:
+            li = next(x['i'] for x in res.results[0] if x['op'] == 'load')
+            for r in range(W):
+                evs = [e for e in res.trace[r] if str(e.get('phase', '')).startswith(f'op{li}:load') and e['kind'] != 'new_group']
+                got_bc = Counter((e['group'], e['numel'], e['root']) for e in evs if e['kind'] == 'broadcast')
+                other = [e for e in evs if e['kind'] != 'broadcast']
+                if other:
+                    return violation(f'checkpoint load: rank {r} issued {[(e["kind"], e["group"]) for e in other]}', 'load-collective', labels=labels)
+                exp_bc = Counter()
+                if W > 1 and k > 1 and load_ci:
+                    for nm in names:
+                        a, g = dims[nm]
+                        wcol = col(asg[nm]['inv']['A'])
+                        if r not in wcol:
+                            continue
+                        ia, ig = asg[nm]['inv']['A'], asg[nm]['inv']['G']
+                        if case['method'] == 'inverse':
+                            exp_bc[(wcol, tri(a) if sym else a * a, ia)] += 1
+                            exp_bc[(wcol, tri(g) if sym else g * g, ig)] += 1
+                        elif case['prediv']:
+                            exp_bc[(wcol, a * a, ia)] += 1
+                            exp_bc[(wcol, g * g, ig)] += 1
+                            exp_bc[(wcol, g * a, ig)] += 1
+                        else:
+                            exp_bc[(wcol, a * a, ia)] += 1
+                            exp_bc[(wcol, a, ia)] += 1
+                            exp_bc[(wcol, g * g, ig)] += 1
+                            exp_bc[(wcol, g, ig)] += 1
+                if got_bc != exp_bc:
+                    return violation(f'checkpoint load (compute_inverses={load_ci}): rank {r} broadcasts (group, numel, root): unexpected '
+                                     f'{dict(got_bc - exp_bc)}, missing {dict(exp_bc - got_bc)} (W={W}, k={k}, {strat}, method={case["method"]}, '
+                                     f'prediv={case["prediv"]})', 'load-broadcast-placement', labels=labels)
         nt = W >= 2 and (non_refresh or sym)
         labels['nontrivial'] = nt
         return passed(nt, labels)
